@@ -27,6 +27,9 @@ fn exec_line(line: &str, out: &mut Out) -> Option<()> {
         "idx" | "flen" => suites::index::exec(op, &args, out),
         #[cfg(feature = "full")]
         "tree" | "hist" => suites::tree::exec(op, &args, out),
+        "cmp" => suites::cmp::exec(op, &args, out),
+        #[cfg(feature = "full")]
+        "conv" | "tint" => suites::conv::exec(op, &args, out),
         _ => None,
     }
 }
@@ -51,6 +54,9 @@ fn main() {
                 "prefix" => suites::prefix::gen(tier, &mut rng, &mut emit),
                 "buf" => suites::buf::gen(tier, &mut rng, &mut emit),
                 "index" => suites::index::gen(tier, &mut rng, &mut emit),
+                "cmp" => suites::cmp::gen(tier, &mut rng, &mut emit),
+                #[cfg(feature = "full")]
+                "conv" => suites::conv::gen(tier, &mut rng, &mut emit),
                 #[cfg(feature = "full")]
                 "tree" => suites::tree::gen(tier, &mut rng, &mut emit),
                 #[cfg(feature = "full")]
